@@ -44,7 +44,7 @@ def verify(src, name):
     try:
         os.makedirs(wt + "/kurbo/tests", exist_ok=True)
         shutil.copy(os.path.join(src, "demo.rs"), wt + "/kurbo/tests/seed_demo.rs")
-        rc, out = sh("cargo test --offline -p kurbo --test seed_demo 2>&1 | tail -15", cwd=wt, env=env)
+        rc, out = sh("cargo test --offline -p kurbo %s --test seed_demo 2>&1 | tail -15" % os.environ.get("SEED_DEMO_FLAGS", ""), cwd=wt, env=env)
         ok0 = "test result: ok" in out
         ran.append("demo on unchanged tree: %s" % ("passes" if ok0 else "FAILS"))
         if not ok0:
@@ -62,8 +62,8 @@ def verify(src, name):
         if not suite_ok:
             return False, ran
         shutil.copy(os.path.join(src, "demo.rs"), wt + "/kurbo/tests/seed_demo.rs")
-        rc, out = sh("cargo test --offline -p kurbo --test seed_demo 2>&1 | tail -15", cwd=wt, env=env)
-        fails = "test result: FAILED" in out or "panicked" in out
+        rc, out = sh("cargo test --offline -p kurbo %s --test seed_demo 2>&1 | tail -15" % os.environ.get("SEED_DEMO_FLAGS", ""), cwd=wt, env=env)
+        fails = "test result: FAILED" in out or "panicked" in out or "stack overflow" in out or "error: test failed" in out or "SIGABRT" in out or "SIGSEGV" in out
         ran.append("demo with the patch: %s" % ("fails (as required)" if fails else "still passes"))
         if not fails:
             return False, ran
